@@ -128,6 +128,10 @@ pub enum Op {
     RegPost { name: String, h: usize },
     /// `execute(text, ctx)`
     Exec { prog: Prog, ctx: CtxRef },
+    /// `parse_expression(text)?.exec(&mut ctx)` where `ctx` is, for the duration of the evaluation, the ONLY
+    /// strong owner of slot `slot`'s handle: the harness and the handlers keep `Weak` handles only (the
+    /// usual way to avoid an Arc cycle context -> closure -> context) and upgrade them inside a handler
+    ExecSole { prog: Prog, slot: usize },
     /// `parse_expression(text)`, result = Debug rendering of the AST
     Parse { prog: Prog },
     /// parse once, then `exec(&mut ctx)` `times` times (Fresh: an equal fresh
